@@ -178,10 +178,15 @@ var registered []Global
 // RegisterGlobals is called from generated code in each instrumented package.
 func RegisterGlobals(gs []Global) { registered = append(registered, gs...) }
 
-var baseline []uint64
+var (
+	baseline []uint64
+	clones   []reflect.Value
+)
 
-// Baseline records the value of every registered package-level variable; call it before the first library call of the
-// process. Executions are compared against it, because package-level state persists from one execution to the next.
+// Baseline records the value (hash and deep clone) of every registered package-level variable; call it before the
+// first library call of the process. Package-level state persists from one execution to the next, so every execution
+// (and every solo run) first restores any variable that differs from the baseline: executions are then functions of
+// the schedule alone.
 func Baseline() {
 	if baseline != nil {
 		return
@@ -189,6 +194,89 @@ func Baseline() {
 	baseline = []uint64{}
 	for _, g := range registered {
 		baseline = append(baseline, DeepHash(g.V))
+		c := reflect.New(g.V.Type()).Elem()
+		deepCopyInto(c, g.V)
+		clones = append(clones, c)
+	}
+}
+
+// RestoreGlobals puts every registered package-level variable that differs from the baseline back to a fresh deep copy
+// of its baseline value. It returns the names of the variables it had to restore.
+func RestoreGlobals() []string {
+	var out []string
+	for i, g := range registered {
+		if i >= len(baseline) {
+			break
+		}
+		if DeepHash(g.V) != baseline[i] {
+			deepCopyInto(g.V, clones[i])
+			out = append(out, g.Name)
+		}
+	}
+	return out
+}
+
+// settable returns a settable handle on v even when v was reached through an unexported struct field.
+func settable(v reflect.Value) reflect.Value {
+	if v.CanSet() || !v.CanAddr() {
+		return v
+	}
+	return reflect.NewAt(v.Type(), unsafe.Pointer(v.UnsafeAddr())).Elem()
+}
+
+func readable(v reflect.Value) reflect.Value {
+	if v.CanInterface() || !v.CanAddr() {
+		return v
+	}
+	return reflect.NewAt(v.Type(), unsafe.Pointer(v.UnsafeAddr())).Elem()
+}
+
+// deepCopyInto makes dst an independent deep copy of src (same type). Pointers, slices and maps are re-allocated.
+func deepCopyInto(dst, src reflect.Value) {
+	dst = settable(dst)
+	src = readable(src)
+	switch src.Kind() {
+	case reflect.Ptr:
+		if src.IsNil() {
+			dst.Set(reflect.Zero(src.Type()))
+			return
+		}
+		n := reflect.New(src.Type().Elem())
+		deepCopyInto(n.Elem(), src.Elem())
+		dst.Set(n)
+	case reflect.Slice:
+		if src.IsNil() {
+			dst.Set(reflect.Zero(src.Type()))
+			return
+		}
+		n := reflect.MakeSlice(src.Type(), src.Len(), src.Len())
+		for i := 0; i < src.Len(); i++ {
+			deepCopyInto(n.Index(i), src.Index(i))
+		}
+		dst.Set(n)
+	case reflect.Array:
+		for i := 0; i < src.Len(); i++ {
+			deepCopyInto(dst.Index(i), src.Index(i))
+		}
+	case reflect.Struct:
+		for i := 0; i < src.NumField(); i++ {
+			deepCopyInto(dst.Field(i), src.Field(i))
+		}
+	case reflect.Map:
+		if src.IsNil() {
+			dst.Set(reflect.Zero(src.Type()))
+			return
+		}
+		n := reflect.MakeMapWithSize(src.Type(), src.Len())
+		it := src.MapRange()
+		for it.Next() {
+			v := reflect.New(src.Type().Elem()).Elem()
+			deepCopyInto(v, it.Value())
+			n.SetMapIndex(it.Key(), v)
+		}
+		dst.Set(n)
+	default: // scalars, strings, interfaces, funcs, channels: shallow
+		dst.Set(src)
 	}
 }
 
@@ -466,6 +554,7 @@ func runExec(prefix []int, setup func(e *Exec) []func(), globals []Global) *Exec
 		t := &thread{id: i, resume: make(chan struct{}), fn: f, vc: make([]int, len(fns))}
 		e.threads = append(e.threads, t)
 	}
+	RestoreGlobals()
 	for _, g := range globals {
 		h := DeepHash(g.V)
 		e.gHash = append(e.gHash, h)
